@@ -118,6 +118,15 @@ TENS = ['dotJb0', 'dotJTb0', 'dotJb1', 'trJ', 'detJ', 'invJ01', 'invJT01', 'mino
         'let_s-J', 'let_J-s', 'let_s/J', 'let_J/s', 'let_s*J', 'let_s+J', 's-J01', 'J-s01']
 
 
+# the closest neighbour of each variant (operand order, transposition, index order): drawn as a mutation of its own,
+# because a PARTICULAR pair among 24 variants is otherwise requested together once in some thousand runs
+TENS_TWIN = {}
+for _a, _b in [('let_s-J', 'let_J-s'), ('let_s/J', 'let_J/s'), ('s-J01', 'J-s01'), ('dotJb0', 'dotJTb0'), ('invJ01', 'invJT01'),
+               ('minor01', 'minor10'), ('outer01', 'outer10'), ('JTJ01', 'JJT01'), ('cross0', 'cross1'), ('let_s*J', 'let_s+J'),
+               ('trJ', 'detJ'), ('dotJb1', 'JJ01')]:
+    TENS_TWIN[_a], TENS_TWIN[_b] = _b, _a
+
+
 def tens_names(dim):
     return [t for t in TENS if dim == 3 or not t.startswith('cross')]
 
@@ -345,6 +354,9 @@ def mutations(spec):
             if t != spec['tens']:
                 mut('tensor-expression', tens=t)
         mut('tensor-expression-present', tens=None)
+        tw = TENS_TWIN.get(spec['tens'])
+        if tw in tens_names(spec['dim']):
+            mut('tensor-operand-order', tens=tw)
     elif spec['dim'] >= 2 and not spec['boundary'] and not spec['surface']:
         mut('tensor-expression-present', tens='trJ')
     if spec.get('mat_kind'):
